@@ -388,7 +388,7 @@ func (i *Interpreter) Exec(ctx context.Context, bs match.Bindings, props core.St
 		result = vv
 	case nil:
 	default:
-		return nil, fmt.Errorf("%#v (%T) isn't Bindings", x, x)
+		return nil, fmt.Errorf("%s (%T) isn't Bindings", show(x), x)
 	}
 	exe.Bs = result
 
@@ -406,6 +406,18 @@ func export(v goja.Value) (x interface{}, err error) {
 		}
 	}()
 	return v.Export(), nil
+}
+
+// show renders a value that a script returned for an error message.
+//
+// Such a value can contain itself (var a = []; a[0] = a;), which %#v
+// follows until the stack is exhausted.  The JSON encoder notices.
+func show(x interface{}) string {
+	js, err := json.Marshal(x)
+	if err != nil {
+		return fmt.Sprintf("a value that can't be shown (%s)", err)
+	}
+	return string(js)
 }
 
 // plainError renders the error of a script now.
